@@ -7,6 +7,7 @@ import (
 	"fmt"
 	"os"
 	"testing"
+	"time"
 
 	"github.com/google/certificate-transparency-go/trillian/ctfe"
 	"github.com/google/certificate-transparency-go/trillian/ctfe/configpb"
@@ -31,23 +32,29 @@ func body(chain [][]byte) []byte {
 	return b
 }
 
-func checkHTTP(t *testing.T, c Case) (v harness.Verdict) {
-	w := build(&c)
-	o := w.resolve(true)
-	chainWhy := chainReason(w.chain, w.trusted)
+// expectHTTP is the reference verdict for one submission at the HTTP level.
+func expectHTTP(w *world, o ropt, preChain bool) (chainWhy, filterWhy, kindWhy string) {
+	chainWhy = chainReason(w.chain, w.trusted)
 	lm := w.metas[w.chain[0].c]
-	filterWhy, kindWhy := "", ""
 	if w.chain[0].intact() {
 		filterWhy = filterReason(lm, o)
 		switch {
 		case lm.poison != "" && lm.poison != "ok":
 			kindWhy = "malformed-poison"
-		case lm.poison == "ok" && !c.PreChain:
+		case lm.poison == "ok" && !preChain:
 			kindWhy = "precert-on-add-chain"
-		case lm.poison == "" && c.PreChain:
+		case lm.poison == "" && preChain:
 			kindWhy = "cert-on-add-pre-chain"
 		}
 	}
+	return
+}
+
+func checkHTTP(t *testing.T, c Case) (v harness.Verdict) {
+	memoTrim()
+	w := build(&c)
+	o := w.resolve(true)
+	chainWhy, filterWhy, kindWhy := expectHTTP(w, o, c.PreChain)
 	want := chainWhy == "" && filterWhy == "" && kindWhy == ""
 	w.classes(&v, chainWhy, filterWhy)
 	if kindWhy != "" {
@@ -58,7 +65,7 @@ func checkHTTP(t *testing.T, c Case) (v harness.Verdict) {
 	} else {
 		v.Class("endpoint:add-chain")
 	}
-	v.NonTrivial = len(w.applied) > 0 || c.Opt.Start != nil || c.Opt.Limit != nil || c.Opt.RejectExpired || c.Opt.RejectUnexpired || c.Opt.OnlyCA || len(c.Opt.EKUs) > 0 || len(c.Opt.RejectExts) > 0
+	v.NonTrivial = len(w.applied) > 0 || len(c.History) > 0 || c.Opt.Start != nil || c.Opt.Limit != nil || c.Opt.RejectExpired || c.Opt.RejectUnexpired || c.Opt.OnlyCA || len(c.Opt.EKUs) > 0 || len(c.Opt.RejectExts) > 0
 	if want {
 		v.Class("verdict:accept")
 		nAccept["http"].Add(1)
@@ -75,7 +82,8 @@ func checkHTTP(t *testing.T, c Case) (v harness.Verdict) {
 	f.Write(pemBundle(w.trusted))
 	f.Close()
 	be := reflog.New(6962, 1)
-	inst, err := ctfex.New(ctfex.Opts{LogKey: keys.Pick("p256", 0), Backend: be, Cfg: func(cfg *configpb.LogConfig) {
+	clock := ctfex.NewClock(time.Unix(1800000000, 0))
+	inst, err := ctfex.New(ctfex.Opts{LogKey: keys.Pick("p256", 0), Backend: be, Clock: clock, Cfg: func(cfg *configpb.LogConfig) {
 		cfg.RootsPemFile = []string{f.Name()}
 		cfg.RejectExpired = c.Opt.RejectExpired
 		cfg.RejectUnexpired = c.Opt.RejectUnexpired
@@ -92,14 +100,58 @@ func checkHTTP(t *testing.T, c Case) (v harness.Verdict) {
 	if err != nil {
 		t.Fatalf("instance: %v (options %s)", err, optString(w, o))
 	}
+
+	// earlier submissions on the same instance: each is judged by the same reference, and none of them
+	// may change the verdict of a later one
+	badPaths, hadValid := 0, false
+	for i, h := range c.History {
+		hc := c
+		hc.Perturbs = h.Perturbs
+		hw := build(&hc)
+		clock.Add(time.Duration(h.AdvanceSec) * time.Second)
+		cw, fw, kw := expectHTTP(hw, hw.resolve(true), c.PreChain)
+		if cw == "" && fw == "" && kw == "" {
+			hadValid = true
+		} else if cw != "" && bytes.Equal(hw.chain[0].der, w.chain[0].der) {
+			badPaths++
+		}
+		submitAndJudge(&v, inst, be, hw, hw.resolve(true), c.PreChain, fmt.Sprintf("history step %d of %d: ", i+1, len(c.History)), false)
+	}
+	if len(c.History) > 0 {
+		v.Class(fmt.Sprintf("history:%d-steps", len(c.History)))
+		if badPaths >= 3 && want {
+			v.Class("history:valid-chain-after->=3-bad-paths-of-the-same-leaf")
+		}
+		if hadValid && !want {
+			v.Class("history:refusal-after-an-admission")
+		}
+	}
+	clock.Add(time.Duration(c.AdvanceSec) * time.Second)
+	submitAndJudge(&v, inst, be, w, o, c.PreChain, "", true)
+	return v
+}
+
+// submitAndJudge posts w's chain and judges status, backend traffic and the path handed on.
+func submitAndJudge(v *harness.Verdict, inst *ctfex.Instance, be *reflog.Log, w *world, o ropt, preChain bool, label string, main bool) {
+	chainWhy, filterWhy, kindWhy := expectHTTP(w, o, preChain)
+	want := chainWhy == "" && filterWhy == "" && kindWhy == ""
 	ep := "/ct/v1/add-chain"
-	if c.PreChain {
+	if preChain {
 		ep = "/ct/v1/add-pre-chain"
 	}
+	before := len(be.CallsOf("QueueLeaf"))
 	rsp := inst.Post(ep, body(w.ders()))
-	calls := be.CallsOf("QueueLeaf")
+	calls := be.CallsOf("QueueLeaf")[before:]
 	got := rsp.Status == 200
-	v.Class(fmt.Sprintf("status:%d", rsp.Status))
+	if main {
+		v.Class(fmt.Sprintf("status:%d", rsp.Status))
+	}
+	suffix := ""
+	if label != "" {
+		suffix = "-in-history"
+	} else if len(w.c.History) > 0 {
+		suffix = "-after-history"
+	}
 
 	switch {
 	case got && !want:
@@ -110,43 +162,45 @@ func checkHTTP(t *testing.T, c Case) (v harness.Verdict) {
 		if why == "" {
 			why = kindWhy
 		}
-		v.Failf("admitted-"+why, "%s answered 200 for a chain the reference refuses (chain: %q, filter: %q, kind: %q); %s; options %s", ep, chainWhy, filterWhy, kindWhy, w.describe(), optString(w, o))
+		v.Failf("admitted-"+why+suffix, "%s%s answered 200 for a chain the reference refuses (chain: %q, filter: %q, kind: %q); %s; options %s", label, ep, chainWhy, filterWhy, kindWhy, w.describe(), optString(w, o))
 	case !got && want:
 		sig := w.refusedSig(o, rsp.Status == 400 && bytes.Contains(rsp.Body, []byte(ctfe.ErrNoRFCCompliantPathFound.Error())))
-		v.Failf(sig, "%s answered %d (%s) for a chain the reference admits; %s; options %s", ep, rsp.Status, bytes.TrimSpace(rsp.Body), w.describe(), optString(w, o))
+		if sig != "refused-trusted-leaf-with-issuer" {
+			sig += suffix
+		}
+		v.Failf(sig, "%s%s answered %d (%s) for a chain the reference admits; %s; options %s", label, ep, rsp.Status, bytes.TrimSpace(rsp.Body), w.describe(), optString(w, o))
 	}
 	if !want && len(calls) > 0 {
-		v.Failf("refused-chain-reached-backend", "%s: a chain the reference refuses (chain: %q, filter: %q, kind: %q) was queued to the log backend (status %d); %s", ep, chainWhy, filterWhy, kindWhy, rsp.Status, w.describe())
+		v.Failf("refused-chain-reached-backend", "%s%s: a chain the reference refuses (chain: %q, filter: %q, kind: %q) was queued to the log backend (status %d); %s", label, ep, chainWhy, filterWhy, kindWhy, rsp.Status, w.describe())
 	}
 	if got {
 		// the validated path that is handed on: leaf in the Merkle leaf (X.509 entries), rest in extra_data
 		if len(calls) != 1 {
-			v.Failf("queue-count", "%d QueueLeaf calls for one admitted submission", len(calls))
-			return v
+			v.Failf("queue-count", "%s%d QueueLeaf calls for one admitted submission", label, len(calls))
+			return
 		}
 		req := calls[0].Req.(*trillian.QueueLeafRequest)
 		var path [][]byte
-		if c.PreChain {
+		if preChain {
 			pre, rest, tail, err := rfc6962.DecodePrecertChainEntry(req.Leaf.ExtraData)
 			if err != nil || len(tail) != 0 {
 				v.Failf("extra-data-undecodable", "extra_data is not a PrecertChainEntry: %v", err)
-				return v
+				return
 			}
 			path = append([][]byte{pre}, rest...)
 		} else {
 			rest, tail, err := rfc6962.DecodeChain(req.Leaf.ExtraData)
 			if err != nil || len(tail) != 0 {
 				v.Failf("extra-data-undecodable", "extra_data is not a certificate chain: %v", err)
-				return v
+				return
 			}
 			lf, tail, err := rfc6962.DecodeLeaf(req.Leaf.LeafValue)
 			if err != nil || len(tail) != 0 || lf.Entry.Type != rfc6962.X509Entry {
 				v.Failf("leaf-undecodable", "leaf value is not an X.509 MerkleTreeLeaf: %v", err)
-				return v
+				return
 			}
 			path = append([][]byte{lf.Entry.Cert}, rest...)
 		}
-		w.judgePath(&v, path)
+		w.judgePath(v, path)
 	}
-	return v
 }
